@@ -145,6 +145,14 @@ theorem applyOp_fn (cfg : Cfg) (c : Ctx) (op : Op) (hn : NS c.st) : Fn c (applyO
   | addRefund g => exact ⟨rfl, hn.1, PrevOK_cons hn.2 _ (fun _ _ h => by cases h)⟩
   | subRefund g => exact ⟨rfl, hn.1, PrevOK_cons hn.2 _ (fun _ _ h => by cases h)⟩
   | prepare x i => exact ⟨rfl, hn⟩
+  | setCredits a n =>
+    obtain ⟨h1, _, h3⟩ := ensure_fn c a hn
+    exact h1.trans (field_fn h1.2 a _ _ (fun _ _ h => by cases h) (Inl_of_toks rfl h3))
+  | addPreimage p d =>
+    simp only [applyOp]
+    split
+    · exact ⟨rfl, hn⟩
+    · exact ⟨rfl, hn.1, PrevOK_cons hn.2 _ (fun _ _ h => by cases h)⟩
 
 /-! ### undo and revert -/
 
@@ -201,6 +209,7 @@ theorem undo_fn (e : Entry) (c : Ctx) (hn : NSo c.st) (he : ∀ a p, e = .resetO
   | refund prev => exact ⟨rfl, hn, rfl⟩
   | addLog tx => exact ⟨rfl, hn, rfl⟩
   | touch a => exact ⟨rfl, hn, rfl⟩
+  | addPreimage p => exact ⟨rfl, hn, rfl⟩
   | tokenBalance a t prev => exact modTok_fn c a t prev hn
 
 theorem revertJournal_fn (n : Nat) (l : List Entry) (c : Ctx) (hn : NSo c.st) (hl : PrevOK l) :
